@@ -41,6 +41,9 @@ MUTS = {
             return protos
 """),
  "I2-inline-converter-initializers-fix-reverted": ("src/spox/_adapt.py", "        _initializers_to_constants(target_model.graph)\n", ""),
+ "O1-optional-identity-requirement-dropped": ("src/spox/_internal_op.py", "            return {(\"\", IDENTITY_OPTIONAL_MIN_OPSET)}\n        return {(\"\", INTERNAL_MIN_OPSET)}", "            return {(\"\", INTERNAL_MIN_OPSET)}\n        return {(\"\", INTERNAL_MIN_OPSET)}"),
+ "O2-floor-only-when-optional": ("src/spox/_internal_op.py", "            return {(\"\", IDENTITY_OPTIONAL_MIN_OPSET)}\n        return {(\"\", INTERNAL_MIN_OPSET)}", "            return {(\"\", IDENTITY_OPTIONAL_MIN_OPSET)}\n        return set()"),
+ "O3-optional-constant-15": ("src/spox/_internal_op.py", "IDENTITY_OPTIONAL_MIN_OPSET = 16", "IDENTITY_OPTIONAL_MIN_OPSET = 15"),
  "G1-functions-get-default-domain-opsets-only": ("src/spox/_graph.py", "proto = fun.to_onnx_function(extra_opset_req=opset_req)", "proto = fun.to_onnx_function(extra_opset_req=[(d, v) for d, v in opset_req if d == ''])"),
 }
 # several edits at once: (name, [(file, old, new), ...])
